@@ -1,12 +1,14 @@
 """C20 — transform setters notify listeners with the value that was stored (spec/Transform.tla)."""
 from concurrent.futures import ThreadPoolExecutor
 
-from .. import common, replay
+from .. import common
+from .. import replay as rp      # not `replay`: main.py takes a module attribute of that name for a --replay entry point
 from ..adapters.transform import TransformAdapter
 
 INVARIANTS = ['TypeOK', 'StoredIsReduced', 'NotifiedValueIsReadBack', 'DeliveryReadsPayload', 'StoredIsLastAssigned',
               'LastNotificationIsReadBack', 'OnlyMatchingEvent', 'OncePerListener', 'RaiseEndsTheCall']
 PROPERTIES = ['ConstructedLikeAssigned', 'DefaultsNotShared', 'StoresAssigned']
+NEVER = 10 ** 9
 
 
 def _set(xs):
@@ -29,31 +31,35 @@ def replay_graph(res, name, g, kinds, depth_all=4, init_stride=1, walks=1500, wa
     def factory():
         return TransformAdapter(desper, kinds)
 
-    if replay.REPLAY is not None:
+    if rp.REPLAY is not None:
         # --replay: listener order / style / exception class of the original run came from a per-worker counter
         # that is not part of the record: execute the history under every combination until one diverges
-        if not replay.REPLAY.get('done'):
+        if not rp.REPLAY.get('done'):
             for k in range(TransformAdapter.VARIANTS):
-                replay.REPLAY.pop('done', None)
-                st = replay.run_paths(g, lambda: TransformAdapter(desper, kinds, start=k), ())
-                if st.n_violations or not replay.REPLAY.get('done'):
+                rp.REPLAY.pop('done', None)
+                st = rp.run_paths(g, lambda: TransformAdapter(desper, kinds, start=k), ())
+                if st.n_violations or not rp.REPLAY.get('done'):
                     break
             res.absorb(st, name + ':replay', g)
         return
-    st = replay.run_paths(g, factory, replay.edge_paths(g))
+    # max_violations: never stop a replay half-way.  Stopping means Pool.terminate() while workers are sending their
+    # (large) statistics: a worker killed inside the result queue's lock leaves it locked and the check hangs (seen
+    # once in some ten runs on a change that makes every other behaviour fail).  A failing family is replayed to
+    # the end instead - at most what a passing run costs - and the families after it are skipped.
+    st = rp.run_paths(g, factory, rp.edge_paths(g), max_violations=NEVER)
     res.absorb(st, name + ':every-edge', g)
     if not st.n_violations and depth_all:
         # Build + every sequence of (depth_all - 1) calls; from every init_stride-th initial state only
         saved, g.init = g.init, g.init[::init_stride]
         try:
-            st = replay.run_paths(g, factory, replay.all_paths(g, depth_all))
+            st = rp.run_paths(g, factory, rp.all_paths(g, depth_all), max_violations=NEVER)
         finally:
             g.init = saved
         res.absorb(st, name + ':all-paths-depth-%d' % depth_all, g)
     if not st.n_violations and walks:
-        st = replay.run_paths(g, factory, replay.random_walks(g, walks, walk_len, res.seed))
+        st = rp.run_paths(g, factory, rp.random_walks(g, walks, walk_len, res.seed), max_violations=NEVER)
         res.absorb(st, name + ':random-walks', g)
-    for s, labs, _t in replay.random_walks(g, 1, 7, res.seed + 1):
+    for s, labs, _t in rp.random_walks(g, 1, 7, res.seed + 1):
         res.sample({'instance': name, 'init': {k: str(dict(g.states[s][k])) for k in ('subs', 'beh', 'ctor', 'reg')},
                     'calls': ['%s%s' % (n, list(a)) for n, a in labs]})
 
@@ -101,9 +107,9 @@ def run(res):
         # a listener raises from its callback, alone or next to a re-assigning one: outcome of the call, how far the
         # dispatch got (both iteration orders), the value kept
         ('c20_raise2d', ['p'], [], consts(['p'], [], vecs, False, rot='Rot_Few', subs='Subs_Both', ctor='Ctor_None',
-                                          reg='Reg_Full', beh='Beh_Raise'), dict(init_stride=2, walks=800)),
+                                          reg='Reg_Full', beh='Beh_Raise'), dict(init_stride=3, walks=800)),
         ('c20_raise3d', [], ['q'], consts([], ['q'], vecs, False, rot='Rot_Few', subs='Subs_Both', ctor='Ctor_None',
-                                          reg='Reg_Full', beh='Beh_Raise'), dict(init_stride=2, walks=800)),
+                                          reg='Reg_Full', beh='Beh_Raise'), dict(init_stride=3, walks=800)),
     ]
 
     def mc(inst):
@@ -130,12 +136,12 @@ def run(res):
         # ... and "what survives is the most recent assignment" alone (a clamp overwritten by the outer store)
         res.model_check('TransformMC', 'c20_notify_before_store_final', c, invariants=['StoredIsLastAssigned'],
                         overrides=ov, count=False, workers=2, expect_violation='StoredIsLastAssigned')
-        # ... with a raising listener the value is then never stored: told to the listeners, not what a read returns
-        c, ov = consts([], ['q'], vecs, False, store_first=False, **dict(clamp3d, beh='Beh_Raise'))
-        res.model_check('TransformMC', 'c20_raise_not_stored', c, invariants=['NotifiedValueIsReadBack'],
-                        overrides=ov, count=False, workers=2, expect_violation='NotifiedValueIsReadBack')
-        res.model_check('TransformMC', 'c20_raise_not_stored_final', c, invariants=['StoredIsLastAssigned'],
-                        overrides=ov, count=False, workers=2, expect_violation='StoredIsLastAssigned')
+        # ... with a raising listener (and nobody re-assigning: the only way these two can fail then) the value is
+        # never stored: told to the listeners served, not what a read returns
+        c, ov = consts([], ['q'], vecs, False, store_first=False, **dict(clamp3d, beh='Beh_RaiseOnly'))
+        res.model_check('TransformMC', 'c20_raise_not_stored', c, overrides=ov, count=False, workers=2,
+                        invariants=['NotifiedValueIsReadBack', 'StoredIsLastAssigned'],
+                        expect_violation=('NotifiedValueIsReadBack', 'StoredIsLastAssigned'))
         # documentation: without the stale-delivery exception the property fails on the *intended* model
         c, ov = consts([], ['q'], vecs, False, **clamp3d)
         res.model_check('TransformMC', 'c20_strict_last_notification', c, invariants=['LastNotificationIsReadBackStrict'],
@@ -147,11 +153,12 @@ def run(res):
                        ctor='Ctor_None')
         r, _g = res.model_check('TransformMC', 'c20_both_full', c, invariants=INVARIANTS, properties=PROPERTIES,
                                 overrides=ov, count=False, workers=8)
-        if thorough:    # both kinds with a clamping listener registered on one or both of them
+        # both kinds with a clamping / a raising listener registered on one or both of them
+        for beh in ('Beh_Clamp', 'Beh_Raise') if thorough else ():
             c, ov = consts(['p'], ['q'], vecs, False, rot='Rot_Few', subs='Subs_Both', ctor='Ctor_None', reg='Reg_Cross',
-                           beh='Beh_Clamp')
-            r2, _g = res.model_check('TransformMC', 'c20_both_clamp', c, invariants=INVARIANTS, properties=PROPERTIES,
-                                     overrides=ov, count=False, workers=8)
+                           beh=beh)
+            r2, _g = res.model_check('TransformMC', 'c20_both_' + beh[4:].lower(), c, invariants=INVARIANTS,
+                                     properties=PROPERTIES, overrides=ov, count=False, workers=8)
             r.distinct += r2.distinct
             r.states += r2.states
         return r, None
